@@ -5,7 +5,7 @@ use std::num::NonZeroUsize;
 
 use constriction::backends::{BoundedReadWords, Cursor, ReadWords};
 use constriction::stream::queue::{EncoderSituation, RangeCoderState, RangeDecoder, RangeEncoder};
-use constriction::stream::{Code, Decode, Encode};
+use constriction::stream::{Code, Decode, Encode, IntoDecoder, TryCodingError};
 use constriction::{BitArray, CoderError, NonZeroBitArray, Pos, Queue, Seek};
 use num_traits::AsPrimitive;
 
@@ -24,6 +24,11 @@ pub trait RangeCombo {
     /// encode symbol `s` with the table model
     fn enc_sym(c: &mut RangeEncoder<Self::W, Self::S>, b: u32, p: u32, cdf: &[u128], s: usize) -> Option<String>;
     fn dec<Bk: ReadWords<Self::W, Queue>>(d: &mut RangeDecoder<Self::W, Self::S, Bk>, b: u32, p: u32, cdf: &[u128]) -> Option<String>;
+    /// batch forms: 0 = encode_symbols, 2 = try_encode_symbols (`Err` item at `err_at`),
+    /// 4 = encode_iid_symbols
+    fn enc_batch(c: &mut RangeEncoder<Self::W, Self::S>, b: u32, p: u32, form: u32, cdf: &[u128], syms: &[usize], err_at: Option<usize>) -> Option<String>;
+    /// 0 = decode_symbols, 1 = try_decode_symbols (`Err` item at `err_at`), 2 = decode_iid_symbols
+    fn dec_batch<Bk: ReadWords<Self::W, Queue>>(d: &mut RangeDecoder<Self::W, Self::S, Bk>, b: u32, p: u32, form: u32, cdf: &[u128], n: usize, err_at: Option<usize>) -> Option<String>;
 }
 
 fn enc_result<E>(r: Result<(), CoderError<constriction::DefaultEncoderFrontendError, E>>) -> String {
@@ -69,6 +74,71 @@ where
     }
 }
 
+fn enc_batch_impl<W, S, Pr, const P: usize>(c: &mut RangeEncoder<W, S>, form: u32, cdf: &[u128], syms: &[usize], err_at: Option<usize>) -> String
+where
+    W: BitArray + Into<S> + AsPrimitive<Pr>,
+    S: BitArray + AsPrimitive<W>,
+    Pr: BitArray + Into<W>,
+{
+    let m = TableModel::<Pr, P>::new(cdf.to_vec());
+    let tr = |r: Result<(), TryCodingError<_, ()>>| match r {
+        Ok(()) => "ok".to_string(),
+        Err(TryCodingError::InvalidEntropyModel(())) => "modelerr".to_string(),
+        Err(TryCodingError::CodingError(e)) => enc_result(Err(e)),
+    };
+    match form {
+        0 => enc_result(c.encode_symbols(syms.iter().map(|&s| (s, &m)))),
+        2 => tr(c.try_encode_symbols(syms.iter().enumerate().map(|(i, &s)| if Some(i) == err_at { Err(()) } else { Ok((s, &m)) }))),
+        4 => enc_result(c.encode_iid_symbols(syms.iter().copied(), &m)),
+        _ => "bad-op".into(),
+    }
+}
+
+fn dec_batch_impl<W, S, Pr, Bk, const P: usize>(d: &mut RangeDecoder<W, S, Bk>, form: u32, cdf: &[u128], n: usize, err_at: Option<usize>) -> String
+where
+    W: BitArray + Into<S> + AsPrimitive<Pr>,
+    S: BitArray + AsPrimitive<W>,
+    Pr: BitArray + Into<W>,
+    Bk: ReadWords<W, Queue>,
+{
+    let m = TableModel::<Pr, P>::new(cdf.to_vec());
+    let mut out: Vec<u128> = Vec::new();
+    let coding = |out: &Vec<u128>, e: CoderError<_, _>| match e {
+        CoderError::Frontend(_) => format!("{} invalid_data", show_list(out.clone())),
+        CoderError::Backend(_) => format!("{} readerr", show_list(out.clone())),
+    };
+    match form {
+        0 => {
+            for r in d.decode_symbols((0..n).map(|_| &m)) {
+                match r {
+                    Ok(s) => out.push(s as u128),
+                    Err(e) => return coding(&out, e),
+                }
+            }
+        }
+        1 => {
+            let it = (0..n).map(|i| if Some(i) == err_at { Err(()) } else { Ok(&m) });
+            for r in d.try_decode_symbols(it) {
+                match r {
+                    Ok(s) => out.push(s as u128),
+                    Err(TryCodingError::InvalidEntropyModel(())) => return format!("{} modelerr", show_list(out)),
+                    Err(TryCodingError::CodingError(e)) => return coding(&out, e),
+                }
+            }
+        }
+        2 => {
+            for r in d.decode_iid_symbols(n, &m) {
+                match r {
+                    Ok(s) => out.push(s as u128),
+                    Err(e) => return coding(&out, e),
+                }
+            }
+        }
+        _ => return "bad-op".into(),
+    }
+    show_list(out)
+}
+
 macro_rules! impl_range_combo {
     ($name:ident, $W:ty, $S:ty; $($B:ty => [$($P:literal),*]);*) => {
         impl RangeCombo for $name {
@@ -89,6 +159,18 @@ macro_rules! impl_range_combo {
             fn dec<Bk: ReadWords<$W, Queue>>(d: &mut RangeDecoder<$W, $S, Bk>, b: u32, p: u32, cdf: &[u128]) -> Option<String> {
                 match (b, p) {
                     $($( (bb, $P) if bb == <$B>::BITS => Some(dec_impl::<$W, $S, $B, Bk, $P>(d, cdf)), )*)*
+                    _ => None,
+                }
+            }
+            fn enc_batch(c: &mut RangeEncoder<$W, $S>, b: u32, p: u32, form: u32, cdf: &[u128], syms: &[usize], err_at: Option<usize>) -> Option<String> {
+                match (b, p) {
+                    $($( (bb, $P) if bb == <$B>::BITS => Some(enc_batch_impl::<$W, $S, $B, $P>(c, form, cdf, syms, err_at)), )*)*
+                    _ => None,
+                }
+            }
+            fn dec_batch<Bk: ReadWords<$W, Queue>>(d: &mut RangeDecoder<$W, $S, Bk>, b: u32, p: u32, form: u32, cdf: &[u128], n: usize, err_at: Option<usize>) -> Option<String> {
+                match (b, p) {
+                    $($( (bb, $P) if bb == <$B>::BITS => Some(dec_batch_impl::<$W, $S, $B, Bk, $P>(d, form, cdf, n, err_at)), )*)*
                     _ => None,
                 }
             }
@@ -163,6 +245,80 @@ fn show_dec<C: RangeCombo>(d: &Dec<C>) -> String {
     )
 }
 
+fn show_dec_any<C: RangeCombo, Bk>(d: &RangeDecoder<C::W, C::S, Bk>) -> String
+where
+    Bk: ReadWords<C::W, Queue> + Clone + Pos + constriction::PosSeek<Position = usize>,
+{
+    let (cursor, state, point) = d.clone().into_raw_parts();
+    format!("{:x} {:x} {:x} {:x}", cursor.pos(), to_u128(state.lower()), to_u128(state.range().get()), to_u128(point))
+}
+
+/// one decoder-mode op on a decoder over any seekable backend (owned `Cursor<Vec>` from
+/// `from_compressed` / `into_decoder`, borrowed `Cursor<&[Word]>` from `for_compressed`)
+fn dec_op<C: RangeCombo, Bk>(
+    d: &mut RangeDecoder<C::W, C::S, Bk>,
+    seg: &[&str],
+    snaps: &[(usize, RangeCoderState<C::W, C::S>)],
+    bad_table: &mut bool,
+) -> Option<String>
+where
+    Bk: ReadWords<C::W, Queue> + Clone + Pos + Seek + constriction::PosSeek<Position = usize>,
+{
+    Some(match seg {
+        ["dec", b, p, cdf] => {
+            let (pp, t) = (parse_hex(p)? as u32, parse_list(cdf)?);
+            if !strict_cdf(pp, &t) {
+                *bad_table = true;
+                "bad-table".into()
+            } else {
+                C::dec(d, parse_hex(b)? as u32, pp, &t).unwrap_or("unsupported".into())
+            }
+        }
+        ["decs", b, p, form, cdf, n, err_at] => {
+            let (pp, t) = (parse_hex(p)? as u32, parse_list(cdf)?);
+            let form = parse_hex(form)? as u32;
+            let n = parse_hex(n)? as usize;
+            let err_at = if *err_at == "-" { None } else { Some(parse_hex(err_at)? as usize) };
+            if form > 2 {
+                return None;
+            }
+            if !strict_cdf(pp, &t) {
+                *bad_table = true;
+                "bad-table".into()
+            } else {
+                C::dec_batch(d, parse_hex(b)? as u32, pp, form, &t, n, err_at).unwrap_or("unsupported".into())
+            }
+        }
+        ["seek", pos, lo, r] => match mk_state::<C>(parse_hex(lo)?, parse_hex(r)?) {
+            None => "badstate".into(),
+            Some(st) => match d.seek((parse_hex(pos)? as usize, st)) {
+                Ok(()) => "ok".into(),
+                Err(()) => "err".into(),
+            },
+        },
+        ["seekto", i] => {
+            let (pos, st) = *snaps.get(parse_hex(i)? as usize)?;
+            match d.seek((pos, st)) {
+                Ok(()) => "ok".into(),
+                Err(()) => "err".into(),
+            }
+        }
+        ["exhausted"] => format!("{}", d.maybe_exhausted()),
+        ["exhausted2"] => {
+            // the trait forms `Code::decoder_maybe_exhausted::<P>` and `Decode::<P>::maybe_exhausted`
+            let a = Code::decoder_maybe_exhausted::<8>(d);
+            let b = Decode::<8>::maybe_exhausted(d);
+            if a == b && a == d.maybe_exhausted() { format!("{}", a) } else { "trait-mismatch".into() }
+        }
+        ["raw"] => show_dec_any::<C, Bk>(d),
+        ["clone"] => {
+            *d = d.clone();
+            "ok".into()
+        }
+        _ => return None,
+    })
+}
+
 fn export<C: RangeCombo>(e: &Enc<C>) -> Vec<u128> {
     unwords(&e.clone().into_compressed().unwrap())
 }
@@ -209,6 +365,15 @@ fn run_hist<C: RangeCombo>(segs: &[Vec<&str>]) -> String {
     let kind = segs[0][0];
     let init = &segs[1];
     let mut enc: Option<Enc<C>> = None;
+    // buffer of a borrowed decoder (`for_compressed`); declared first so that it outlives it
+    let borrowed_buf: Vec<C::W> = match (kind, init.as_slice()) {
+        ("rangedec", ["borrowed", ws]) => match parse_list(ws) {
+            Some(l) => words::<C::W>(&l),
+            None => return "bad-op".into(),
+        },
+        _ => Vec::new(),
+    };
+    let mut bdec: Option<RangeDecoder<C::W, C::S, Cursor<C::W, &[C::W]>>> = None;
     let mut dec: Option<Dec<C>> = None;
     let mut snaps: Vec<(usize, RangeCoderState<C::W, C::S>)> = Vec::new();
     let mut spec_ok = false;
@@ -252,6 +417,9 @@ fn run_hist<C: RangeCombo>(segs: &[Vec<&str>]) -> String {
         ("rangedec", ["words", ws]) => {
             dec = Some(RangeDecoder::from_compressed(words::<C::W>(&pl!(ws))).unwrap());
         }
+        ("rangedec", ["borrowed", _]) => {
+            bdec = Some(RangeDecoder::for_compressed(&borrowed_buf).unwrap());
+        }
         ("rangedec", ["rawdec", ws, pos, lo, r, pt]) => {
             let l = pl!(ws);
             let (pos, lo, r, pt) = (ph!(pos), ph!(lo), ph!(r), ph!(pt));
@@ -286,6 +454,37 @@ fn run_hist<C: RangeCombo>(segs: &[Vec<&str>]) -> String {
                     }
                     ["encnone", b, p] => C::enc(coder, parse_hex(b)? as u32, parse_hex(p)? as u32, None)
                         .unwrap_or("unsupported".into()),
+                    ["encs", b, p, form, cdf, syms, err_at] => {
+                        let (pp, t) = (parse_hex(p)? as u32, parse_list(cdf)?);
+                        let form = parse_hex(form)? as u32;
+                        let syms: Vec<usize> = parse_list(syms)?.iter().map(|&x| x as usize).collect();
+                        let err_at = if *err_at == "-" { None } else { Some(parse_hex(err_at)? as usize) };
+                        if form != 0 && form != 2 && form != 4 {
+                            return None;
+                        }
+                        if !strict_cdf(pp, &t) {
+                            bad_table = true;
+                            "bad-table".into()
+                        } else {
+                            let o = C::enc_batch(coder, parse_hex(b)? as u32, pp, form, &t, &syms, err_at).unwrap_or("unsupported".into());
+                            if o != "ok" {
+                                spec_ok = false;
+                            }
+                            o
+                        }
+                    }
+                    ["full"] => {
+                        // inherent `maybe_full`, `Encode::<P>::maybe_full`, `Code::encoder_maybe_full::<P>`
+                        let a = coder.maybe_full();
+                        let b = Encode::<8>::maybe_full(coder);
+                        let c = Code::encoder_maybe_full::<8>(coder);
+                        if a == b && b == c { format!("{}", a) } else { "trait-mismatch".into() }
+                    }
+                    ["intodec2"] => {
+                        let e = enc.take().unwrap();
+                        dec = Some(IntoDecoder::<8>::into_decoder(e));
+                        "ok".into()
+                    }
                     ["export"] => show_list(export::<C>(coder)),
                     ["getc"] => {
                         let g = coder.get_compressed();
@@ -333,43 +532,10 @@ fn run_hist<C: RangeCombo>(segs: &[Vec<&str>]) -> String {
                     }
                     _ => return None,
                 })
+            } else if let Some(d) = bdec.as_mut() {
+                dec_op::<C, _>(d, seg.as_slice(), &snaps, &mut bad_table)
             } else {
-                let d = dec.as_mut().unwrap();
-                let mut do_seek = |d: &mut Dec<C>, pos: usize, lo: u128, r: u128| -> String {
-                    match mk_state::<C>(lo, r) {
-                        None => "badstate".into(),
-                        Some(st) => match d.seek((pos, st)) {
-                            Ok(()) => "ok".into(),
-                            Err(()) => "err".into(),
-                        },
-                    }
-                };
-                Some(match seg.as_slice() {
-                    ["dec", b, p, cdf] => {
-                        let (pp, t) = (parse_hex(p)? as u32, parse_list(cdf)?);
-                        if !strict_cdf(pp, &t) {
-                            bad_table = true;
-                            "bad-table".into()
-                        } else {
-                            C::dec(d, parse_hex(b)? as u32, pp, &t).unwrap_or("unsupported".into())
-                        }
-                    }
-                    ["seek", pos, lo, r] => do_seek(d, parse_hex(pos)? as usize, parse_hex(lo)?, parse_hex(r)?),
-                    ["seekto", i] => {
-                        let (pos, st) = *snaps.get(parse_hex(i)? as usize)?;
-                        match d.seek((pos, st)) {
-                            Ok(()) => "ok".into(),
-                            Err(()) => "err".into(),
-                        }
-                    }
-                    ["exhausted"] => format!("{}", d.maybe_exhausted()),
-                    ["raw"] => show_dec::<C>(d),
-                    ["clone"] => {
-                        *d = d.clone();
-                        "ok".into()
-                    }
-                    _ => return None,
-                })
+                dec_op::<C, _>(dec.as_mut().unwrap(), seg.as_slice(), &snaps, &mut bad_table)
             }
         });
         match r {
